@@ -182,7 +182,15 @@ func checkC12(w *World) {
 		// GetAttribute constants
 		getOK := false
 		var getCall *ssa.Call
-		allInstrs(impl, func(in ssa.Instruction) {
+		// (in the builtin itself or in a helper of the package it was split into)
+		forClosure := func(visit func(ssa.Instruction)) {
+			for _, g := range closure {
+				if fnPkgKey(g) == "exec" {
+					allInstrs(g, visit)
+				}
+			}
+		}
+		forClosure(func(in ssa.Instruction) {
 			c, ok := in.(*ssa.Call)
 			if !ok || staticCallee(c) == nil || funcFullName(staticCallee(c)) != modPath+"/store.GetAttribute" {
 				return
@@ -215,7 +223,7 @@ func checkC12(w *World) {
 			w.check(P, "R12.2", "lang: climbs to the nearest xml:lang", getCall.Pos(), rootTest && climbs, fmt.Sprintf("lookup under n.Pos() != 0: %v; n = n.Parent() on a miss: %v", rootTest, climbs))
 			// nearest hit returns
 			returns := false
-			for _, b := range impl.Blocks {
+			for _, b := range getCall.Parent().Blocks {
 				for _, a := range guardAtoms(b) {
 					if ex, ok := a.V.(*ssa.Extract); ok && ex.Tuple == ssa.Value(getCall) && ex.Index == 1 && a.Pol {
 						for _, in := range b.Instrs {
@@ -226,10 +234,36 @@ func checkC12(w *World) {
 					}
 				}
 			}
-			w.check(P, "R12.2", "lang: decides at the nearest hit", getCall.Pos(), returns, fmt.Sprintf("returns the comparison result as soon as an xml:lang is found: %v", returns))
+			// ... and the climb continues only on a miss: the step to the parent is taken only where the lookup is known
+			// to have failed (a hit with an empty value is still the nearest declaration: xml:lang="" switches the
+			// language off for the subtree)
+			climbOnlyOnMiss := true
+			climbSeen := false
+			if phi, ok := n.(*ssa.Phi); ok {
+				for _, e := range phi.Edges {
+					pc, isCall := e.(*ssa.Call)
+					if !isCall {
+						continue
+					}
+					if recv, ok := isMethodCall(pc, "Parent"); !ok || recv != n {
+						continue
+					}
+					climbSeen = true
+					miss := false
+					for _, a := range guardAtoms(pc.Block()) {
+						if ex, ok := a.V.(*ssa.Extract); ok && ex.Tuple == ssa.Value(getCall) && ex.Index == 1 && !a.Pol {
+							miss = true
+						}
+					}
+					if !miss {
+						climbOnlyOnMiss = false
+					}
+				}
+			}
+			w.check(P, "R12.2", "lang: decides at the nearest hit", getCall.Pos(), returns && (!climbSeen || climbOnlyOnMiss), fmt.Sprintf("returns the comparison result as soon as an xml:lang is found: %v; climbs on only when none was found on the node: %v", returns, climbOnlyOnMiss))
 			// non-elements start from the parent
 			startParent := false
-			allInstrs(impl, func(in ssa.Instruction) {
+			forClosure(func(in ssa.Instruction) {
 				c, ok := in.(*ssa.Call)
 				if !ok {
 					return
